@@ -208,6 +208,10 @@ func RunC06(c *Ctx) {
 		}
 	}
 	r.Count("crash_sweeps_planned", idx)
+	// real processes: one worker is SIGKILLed in every round, the others continue
+	engBKillAll = true
+	runEngB(c, c.N(6, 200))
+	engBKillAll = false
 	sampleEng(c, e)
 }
 
